@@ -172,6 +172,9 @@ def stage_cfgs(pid, tier, rng):
                     for gate in (False, True):
                         rnd.append(C(kind=kind, forked=True, par=par, cap=par % 2, mode="lift", inputs=[[1, 2, 3, 4]], fail=fail, gate=gate))
                 mc.append(C(kind=kind, forked=True, par=2, cap=0, mode="lift", inputs=[[1, 2, 3]], fail=[1, 2], gate=False))
+                # a single failure: its error waits in the error channel's buffer whether or not anybody reads it
+                for par in (1, 2, 3):
+                    rnd.append(C(kind=kind, forked=True, par=par, cap=par % 2, mode="lift", inputs=[[1, 2, 3, 4]], fail=[par], gate=False))
                 if kind == "Map":
                     if th:
                         mc.append(C(kind=kind, forked=True, par=3, cap=1, mode="lift", inputs=[[1, 2, 3]], fail=[1, 2, 3], gate=False))
